@@ -19,6 +19,7 @@ structure St where
   file : Bool := false
   cas : Bool := false                  -- file store with ForceCAS
   nov : Bool := false                  -- file store with DisableOverwrite
+  inn : Bool := false                  -- file store with IgnoreNoName
   absDisk : List Nat := []             -- names of files that were on disk before the store was opened
   isMan : List (Nat × Bool) := []
   succD : List (Nat × List SDesc) := []
@@ -69,7 +70,7 @@ def step (s : St) (toks : List String) : Option (St × String × String) :=
   match toks with
   | "new" :: rest => do
       let st0 : St := { file := (← kv rest "kind") == "file", cas := (kv rest "cas") == some "1",
-                        nov := (kv rest "nov") == some "1" }
+                        nov := (kv rest "nov") == some "1", inn := (kv rest "inn") == some "1" }
       some (st0, "ok", "ok")
   | "disk" :: rest => do
       -- a file of unknown content already sits in the working directory under this name
@@ -90,8 +91,10 @@ def step (s : St) (toks : List String) : Option (St × String × String) :=
             | some k => s.absNamed.any (·.1 == k) || (s.nov && s.absDisk.contains k)   -- DisableOverwrite
             | none => s.absContent.contains n)
         else s.absContent.contains n
-      let okSpec := !refused && good
-      let s1 : St := if !okSpec then s else
+      -- IgnoreNoName: content without a title is discarded and the push reports success
+      let discard := s.file && s.inn && nm.isNone
+      let okSpec := discard || (!refused && good)
+      let s1 : St := if !okSpec || discard then s else
         let s0 : St := if s.file then
             (match nm with
               | some k => { s with absNamed := (k, n) :: s.absNamed }
@@ -109,7 +112,7 @@ def step (s : St) (toks : List String) : Option (St × String × String) :=
       let sp := if okSpec then "ok" else "err"
       -- model
       if s.file then
-        let (fs', r) := s.fs.push c (!Gen.fileRecordsPathAfterCopy) ⟨n, nm⟩ good s.cas s.nov Gen.fileRemovesPartialOnFailure
+        let (fs', r) := s.fs.push c (!Gen.fileRecordsPathAfterCopy) ⟨n, nm⟩ good s.cas s.nov Gen.fileRemovesPartialOnFailure s.inn
         some ({ s1 with fs := fs' }, showU r, sp)
       else
         let (m', r) := s.mem.push c n good
